@@ -124,13 +124,11 @@ def exceptions : List Exc := [
   ("Opm::ScheduleStatic", "oilVap", "construction-time input: read only by Schedule::create_first, which copies it into ScheduleState::oilvap (serialized)")
 ]
 
-/-- Data members that are still NOT serialized and are read after construction, i.e. open
-candidates (no deck-level reproduction yet; see design.d/C11.md).  The six members found by this
-check that a public query demonstrably lost (F7–F12) were fixed in /repo and are serialized now. -/
-def knownUnserialized : List Exc := [
-  ("Opm::ScheduleStatic", "slave_mode", "candidate: read by the GRUPMAST/SLAVES/GRUPSLAV handlers (handlerContext.static_schedule().slave_mode) whenever such a keyword is applied after unpack, e.g. from an ACTIONX in a reservoir-coupling slave"),
-  ("Opm::EclipseState", "m_restart_network_pressures", "candidate: filled by loadRestartNetworkPressures() in restarted network runs, read by the public getRestartNetworkPressures()")
-]
+/-- Data members that are still NOT serialized and are read after construction (open candidates).
+Empty: the eight members found by this check that a public query demonstrably lost (F7–F14, the last
+two `ScheduleStatic::slave_mode` and `EclipseState::m_restart_network_pressures`) were fixed in /repo
+and are serialized now; their property-mode probes are armed (lib/props/C11.py). -/
+def knownUnserialized : List Exc := []
 
 /-- Serialized members that `operator==` (including the member functions it calls) does not
 mention on the unchanged tree.  `operator==` is weaker than the serialized state there, so
